@@ -83,7 +83,7 @@ var modelScns = []modelScn{
 	{"union-wide", fixed(1000, 10000)},
 	{"cond-terms", fixed(100, 10000, 100000)}, {"cond-parens", deep()}, {"cond-not", deep()}, {"cond-listlit", deep()}, {"cond-ternary", deep()},
 	{"cond-undeclared", fixed(0)}, {"cond-params", fixed(10000)}, {"cond-generic-depth", deep(4900)}, {"cond-many", fixed(10000)},
-	{"cond-strlit", fixed(100000, 1 << 20)}, {"cond-macro-nest", fixed(3, 6, 12)}, {"cond-bigint", fixed(0)},
+	{"cond-strlit", fixed(100000, 1<<20)}, {"cond-macro-nest", fixed(3, 6, 12)}, {"cond-bigint", fixed(0)},
 }
 
 func buildModel(scn string, n int) *hostileModel {
@@ -380,7 +380,7 @@ var storedTupleRPCs = append(append([]string{}, graphRPCs...), "Read", "ReadChan
 type cyclicScn struct {
 	Name     string
 	Args     []int
-	QuickOne int    // quick tier: this argument is run for QuickRPC under the default configuration only
+	QuickOne int // quick tier: this argument is run for QuickRPC under the default configuration only
 	QuickRPC string
 }
 
